@@ -9,11 +9,26 @@ ids = [json.loads(l)["id"] for l in open(os.path.join(ROOT, "properties.jsonl"))
 hook_commits = subprocess.run(["git", "-C", "/repo", "log", "--format=%H %s"], capture_output=True, text=True).stdout
 hook_commits = [l.split()[0] for l in hook_commits.splitlines() if "verif-hooks" in l]
 
+CONC = {"C01", "C09", "C10"}
+DEEP = {"C01", "C02", "C03", "C04", "C05", "C06", "C07", "C08", "C11", "C12", "C13", "C15", "C16", "C17", "C19"}
 checks = []
 for pid in ids:
     if pid not in PROPS or PROPS[pid].get("disabled"):
         continue
     c = PROPS[pid]
+    extra_text = ""
+    if pid in CONC:
+        extra_text += (" A concurrent lane issues the same calls from four OS threads at once; every distinct value a call "
+                       "ever returned is judged by the same oracle.")
+    if pid in DEEP:
+        extra_text += (" A deep lane runs the property's operations with the library compiled unoptimised on 3e5-piece inputs "
+                       "(65 538 / 100 003 knots, a 400 003-coefficient PolyN) on a 2 MiB thread stack; stack exhaustion "
+                       "inside a library call is reported as a violation.")
+    if pid in ("C03", "C10", "C16"):
+        extra_text += (" Half of the workload runs on a build with the library's observation hooks, half on the "
+                       "default-features build.")
+    else:
+        extra_text += " Runs on the default-features build of the library (no hooks)."
     checks.append({
         "property_id": pid,
         "quick_cmd": f"python3-vt run.py check {pid} --tier quick",
@@ -23,7 +38,7 @@ for pid in ids:
         "engine": "ppv",
         "level_claimed": {
             "category": "exploration",
-            "text": c.get("level_text", "Runtime monitoring: the property held on every execution observed; nothing is claimed about inputs that were not run."),
+            "text": c.get("level_text", "Runtime monitoring: the property held on every execution observed; nothing is claimed about inputs that were not run.") + extra_text,
             "design_ref": c.get("design_ref", "DESIGN.md section 4, " + pid),
         },
         "level_note": c.get("level_note", "Trusted: the harness generators and oracle; IEEE-754 arithmetic of the host."),
